@@ -212,6 +212,23 @@ func (e *Engine) keyOf(fn *ssa.Function) string {
 	return fn.String()
 }
 
+func (e *Engine) globalType(name string) (types.Type, bool) {
+	pkg := "lua"
+	n := name
+	if i := strings.Index(name, "."); i > 0 {
+		pkg, n = name[:i], name[i+1:]
+	}
+	sp := e.pkgs[pkg]
+	if sp == nil {
+		return nil, false
+	}
+	g, ok := sp.Members[n].(*ssa.Global)
+	if !ok {
+		return nil, false
+	}
+	return g.Type().(*types.Pointer).Elem(), true
+}
+
 func (e *Engine) typeID(t types.Type) Term {
 	k := typeStr(t)
 	if e.typeIDs == nil {
